@@ -29,18 +29,23 @@ import (
 
 // FindServicePort ...
 func FindServicePort(svc *api.Service, servicePort string) *api.ServicePort {
+	// the name or the number of a service port has precedence, a number
+	// should not select another port that happens to use it as its targetPort
 	for _, port := range svc.Spec.Ports {
-		if port.Name == servicePort || port.TargetPort.String() == servicePort {
+		if port.Name == servicePort {
 			return &port
 		}
 	}
-	svcPortNumber, err := strconv.ParseInt(servicePort, 10, 0)
-	if err != nil {
-		return nil
+	if svcPortNumber, err := strconv.ParseInt(servicePort, 10, 0); err == nil {
+		svcPort := int32(svcPortNumber)
+		for _, port := range svc.Spec.Ports {
+			if port.Port == svcPort {
+				return &port
+			}
+		}
 	}
-	svcPort := int32(svcPortNumber)
 	for _, port := range svc.Spec.Ports {
-		if port.Port == svcPort {
+		if port.TargetPort.String() == servicePort {
 			return &port
 		}
 	}
